@@ -4,18 +4,26 @@ COQDIR := coq
 BUILD  := build
 JOBS   ?= 16
 
-.PHONY: all setup coq driver clean gen
+.PHONY: all setup coq model driver clean gen
 
 all: setup
-setup: coq driver
+# the model and the driver first (they do not depend on proofs or tie files), then everything
+setup: driver coq
 
-$(COQDIR)/Makefile.coq: $(COQDIR)/_CoqProject
+gen:
+	PYTHONPATH=/repo/src /venv/bin/python harness/translators.py >/dev/null
+
+$(COQDIR)/Makefile.coq: $(COQDIR)/_CoqProject gen
 	cd $(COQDIR) && coq_makefile -f _CoqProject -o Makefile.coq
 
-coq: $(COQDIR)/Makefile.coq
-	cd $(COQDIR) && timeout 3000 $(MAKE) -f Makefile.coq -j$(JOBS)
+model: $(COQDIR)/Makefile.coq
+	cd $(COQDIR) && timeout 3000 $(MAKE) -f Makefile.coq -j$(JOBS) Model/Run.vo Model/Threads.vo
 
-$(BUILD)/model.ml: coq $(COQDIR)/Extract.v
+# -k: a broken proof or tie file must not stop unrelated files from being checked
+coq: $(COQDIR)/Makefile.coq
+	cd $(COQDIR) && timeout 3000 $(MAKE) -k -f Makefile.coq -j$(JOBS)
+
+$(BUILD)/model.ml: model $(COQDIR)/Extract.v
 	mkdir -p $(BUILD)
 	cd $(BUILD) && timeout 300 coqc -Q ../$(COQDIR)/Model Model -o Extract.vo ../$(COQDIR)/Extract.v
 
@@ -28,4 +36,4 @@ driver: $(BUILD)/driver
 clean:
 	rm -rf $(BUILD)
 	cd $(COQDIR) && [ -f Makefile.coq ] && $(MAKE) -f Makefile.coq clean || true
-	rm -f $(COQDIR)/Makefile.coq $(COQDIR)/Makefile.coq.conf $(COQDIR)/.*.aux $(COQDIR)/*/.*.aux
+	rm -f $(COQDIR)/Makefile.coq $(COQDIR)/Makefile.coq.conf $(COQDIR)/.*.aux $(COQDIR)/*/.*.aux $(COQDIR)/gen/*.v
